@@ -139,6 +139,16 @@ func (m *machine) formatScalar(spec string, verb byte, flags string, v value, t 
 			if m.h.fmtOpaque {
 				return "<symint>"
 			}
+			if verb == 'd' && flags == "" {
+				// symbolic itoa: interpret the real strconv.FormatInt / FormatUint
+				if x.sg {
+					if f := m.eng.lookupFunc("strconv", "FormatInt"); f != nil {
+						return m.call(f, []value{m.convInt(x, 64, true), mkInt(10)}, nil, token.NoPos)
+					}
+				} else if f := m.eng.lookupFunc("strconv", "FormatUint"); f != nil {
+					return m.call(f, []value{m.convInt(x, 64, false), mkInt(10)}, nil, token.NoPos)
+				}
+			}
 			x = m.concretize(x)
 		}
 		if verb == 'c' || verb == 'q' || verb == 'U' {
